@@ -78,11 +78,14 @@ pub struct GraphOpts {
     pub base_calls: Vec<serde_json::Value>,
     /// closing historical reads: 0 = none, n = up to n antichains per replica (singletons and pairs)
     pub readat: usize,
+    /// replace every replica by load(save(replica)) before the closing historical reads (C11)
+    pub reload_before_readat: bool,
 }
 
 pub const W_DEFAULT: [usize; 10] = [34, 38, 46, 56, 78, 84, 88, 91, 95, 98];
 pub const W_DOC: [usize; 10] = [50, 51, 55, 72, 90, 94, 96, 96, 100, 100];
 pub const W_CONFLICT: [usize; 10] = [50, 50, 52, 70, 94, 96, 96, 96, 100, 100];
+pub const W_RELOAD: [usize; 10] = [40, 46, 50, 62, 74, 76, 76, 78, 96, 98];
 pub const W_DUP: [usize; 10] = [36, 38, 40, 50, 88, 92, 92, 95, 98, 99];
 
 /// Random program mixing commits, empty commits, isolated commits, merges, out-of-order and
@@ -203,6 +206,10 @@ pub fn graph_scenario(idx: usize, rng: &mut Rng, o: &GraphOpts, family: &str) ->
     // closing historical reads at every single change and at pairs of concurrent changes
     if o.readat > 0 {
         for r in 0..w.n() {
+            if o.reload_before_readat && !w.dead {
+                w.save_load(r, rng.chance(1, 2), rng.chance(1, 2));
+                w.probe_getchanges(r, &[]);
+            }
             let app = applied_of(&w, r);
             let mut sets: Vec<Vec<String>> = app.iter().map(|h| vec![h.clone()]).collect();
             for i in 0..app.len() {
@@ -221,6 +228,11 @@ pub fn graph_scenario(idx: usize, rng: &mut Rng, o: &GraphOpts, family: &str) ->
                 }
                 let heads: Vec<ChangeHash> = hs.iter().map(|h| w.known[h].hash()).collect();
                 w.probe_readat(r, &heads);
+                if o.reload_before_readat {
+                    if let Some(last) = w.log.last_mut() {
+                        last["afterload"] = serde_json::json!(true);
+                    }
+                }
             }
         }
     }
